@@ -138,8 +138,14 @@ func lexerCheck(c *core.Ctx, class string) {
 	inputs := map[int]string{}
 	seen := map[string]bool{}
 	var nontrivial int64
-	for i := 0; i < nrand; i++ {
-		in := GenLexInput(rng, 3+rng.Intn(30))
+	structured := StructuredLexInputs()
+	for i := 0; i < nrand+len(structured); i++ {
+		var in string
+		if i < nrand {
+			in = GenLexInput(rng, 3+rng.Intn(30))
+		} else {
+			in = structured[i-nrand]
+		}
 		if seen[in] {
 			continue
 		}
